@@ -487,6 +487,21 @@ func genCases(ps []*pristine, tier string, seed int64) []caseT {
 			c.Varied = fields[a].name + "+" + fields[b].name
 			add(c)
 		}
+		// framing that is consistent with itself and absurd: a region far larger than any file, and a block's section
+		// filling it (both tiers: each field alone is caught by the check against the other)
+		for _, top := range []int64{math.MaxInt64, 1 << 40, 1 << 33} {
+			for _, d := range []int64{0, 1, 1000} {
+				for bi := range base.Blocks {
+					for _, e := range []int64{0, 1, 100} {
+						c := clone()
+						c.RS = top - c.RO - d
+						c.Blocks[bi].BFS = c.RS - (c.Blocks[bi].BFO - c.RO) - e
+						c.Varied = fmt.Sprintf("rs+bfs%d", bi+1)
+						add(c)
+					}
+				}
+			}
+		}
 		// small filter sections at every offset of the region (sections shorter than a checksum + flag byte)
 		stride := int64(1)
 		if tier != "thorough" && fi > 0 {
@@ -573,6 +588,20 @@ func child(casesPath, outPath, progressPath string, from int) {
 	guard.Restore()
 }
 
+// dyingWords cuts the runtime's report out of a dead child's output: from "panic:" / "fatal error:" on.
+func dyingWords(out string) string {
+	for _, key := range []string{"panic:", "fatal error:"} {
+		if i := strings.Index(out, key); i >= 0 {
+			out = out[i:]
+			break
+		}
+	}
+	if len(out) > 700 {
+		out = out[:700]
+	}
+	return out
+}
+
 func main() {
 	out := flag.String("out", "", "output directory")
 	seed := flag.Int64("seed", 1, "seed")
@@ -607,7 +636,13 @@ func main() {
 		var stderr bytes.Buffer
 		cmd.Stderr = &stderr
 		cmd.Stdout = &stderr
+		// the child points its own descriptors 1 and 2 at a capture file: what a dying child says ends up there
+		childCap := *out + "/child.cap"
+		cmd.Env = append(os.Environ(), "VERIF_STDIO_CAP="+childCap)
 		err := cmd.Run()
+		if b, rerr := os.ReadFile(childCap); rerr == nil && len(b) > 0 {
+			stderr.Write(b)
+		}
 		prog, _ := os.ReadFile(progPath)
 		if string(prog) == "done" && err == nil {
 			break
@@ -621,7 +656,7 @@ func main() {
 		}
 		crashes++
 		c := cases[idx-1]
-		o := obsT{ID: c.ID, Class: c.Class, Varied: c.Varied, Mut: c.Mut, Comp: ps[c.File].comp, Panic: "process died: " + tail(stderr.String(), 600),
+		o := obsT{ID: c.ID, Class: c.Class, Varied: c.Varied, Mut: c.Mut, Comp: ps[c.File].comp, Panic: "process died: " + dyingWords(stderr.String()),
 			T: map[string]any{"F": int64(0), "M": int64(0), "ffs": int64(0), "ro": int64(0), "rs": int64(0), "blocks": []map[string]int64{}}}
 		of, _ := os.OpenFile(obsPath, os.O_APPEND|os.O_CREATE|os.O_WRONLY, 0o644)
 		b, _ := json.Marshal(o)
